@@ -339,7 +339,14 @@ def targets(ctx):
         return Eval(fails, weight=len(VARIANTS), nontrivial_count=len(VARIANTS) if nontrivial else 0,
                     labels=[f"feat:{x}" for x in sorted(feats)] + [f"client_streaming:{cs}"])
 
-    SHADOW_PROTO = {"p.proto": 'syntax = "proto3";\npackage p;\nimport "google/protobuf/timestamp.proto";\nimport "google/protobuf/duration.proto";\nmessage Shadow { google.protobuf.Timestamp datetime = 1; google.protobuf.Timestamp other = 2; optional google.protobuf.Duration timedelta = 3; repeated int32 list = 4; repeated int32 more = 5; map<int32, int32> dict = 6; map<int32, int32> d2 = 7; int32 mk20001 = 20001; }\n'}
+    _IMP = 'import "google/protobuf/timestamp.proto";\nimport "google/protobuf/duration.proto";\n'
+    # one package per shadowing field name (so that each name has a verdict of its own)
+    SHADOW_PROTO = {
+        "sh_datetime.proto": 'syntax = "proto3";\npackage sh_datetime;\n' + _IMP + "message Shadow { google.protobuf.Timestamp datetime = 1; google.protobuf.Timestamp other = 2; int32 mk20001 = 20001; }\n",
+        "sh_timedelta.proto": 'syntax = "proto3";\npackage sh_timedelta;\n' + _IMP + "message Shadow { optional google.protobuf.Duration timedelta = 3; google.protobuf.Duration other = 2; int32 mk20002 = 20002; }\n",
+        "sh_list.proto": 'syntax = "proto3";\npackage sh_list;\nmessage Shadow { repeated int32 list = 4; repeated int32 more = 5; int32 mk20003 = 20003; }\n',
+        "sh_dict.proto": 'syntax = "proto3";\npackage sh_dict;\nmessage Shadow { map<int32, int32> dict = 6; map<int32, int32> d2 = 7; int32 mk20004 = 20004; }\n',
+    }
 
     from ._shapes import SINGLE_CONSTRUCT
 
@@ -350,10 +357,13 @@ def targets(ctx):
 
     def fixed_ev(case):
         if case["fixed"].startswith("probe_"):
-            fails, results = run_variants(SHADOW_PROTO, case["vseeds"])
-            for f in fails:
-                f.sig = "probe|field_named_like_annotation_type|" + f.sig
-            return Eval(fails, weight=len(VARIANTS), nontrivial_count=len(VARIANTS), labels=["probe"])
+            allf = []
+            for fname, text in SHADOW_PROTO.items():
+                fails, results = run_variants({fname: text}, case["vseeds"])
+                for f in fails or []:
+                    f.sig = f"probe|field_named_like_annotation_type|{fname[3:-6]}|" + f.sig
+                allf += fails or []
+            return Eval(allf, weight=len(VARIANTS) * len(SHADOW_PROTO), nontrivial_count=len(VARIANTS) * len(SHADOW_PROTO), labels=["probe"])
         fails, results = run_variants(SINGLE_CONSTRUCT if case["fixed"] == "single_construct_packages" else SERVICE_PROTO, case["vseeds"])
         return Eval(fails, weight=len(VARIANTS), nontrivial_count=len(VARIANTS), labels=["fixed:" + case["fixed"]])
 
